@@ -340,10 +340,10 @@ def solve_task(task):
     # measured: z3 decides 8/16-bit lanes; cvc5 int-blast decides unsigned 32/64-bit lanes in < 2 s per divisor; nothing decides the
     # signed 32/64-bit magic-number division over the full numerator range, so that attempt gets a small budget and the bounded
     # windows below are used instead
-    b['z3_ms'] = 1000 if T0.bits >= 32 else (4000 if quick else 60000)
-    b['fallback_s'] = (6 if quick else 60) if T0.bits >= 32 else (20 if quick else 300)
+    b['z3_ms'] = 1000 if T0.bits >= 32 else (4000 if quick else 20000)
+    b['fallback_s'] = (6 if quick else 30) if T0.bits >= 32 else (20 if quick else 60)
     b['group_ms'] = 300 if T0.bits == 8 else 800
-    b['max_unknown'] = 2 if quick else 12
+    b['max_unknown'] = 2 if quick else 4
     hopeless_full_range = T0.signed and T0.bits >= 32
     if hopeless_full_range and quick:
         b['z3_ms'] = 400
